@@ -253,7 +253,7 @@ class Gen(object):
             return v
         if self.xslt and r.random() < 0.5:
             self.f('format-number')
-            return "format-number(%s, %s)" % (self.e_num(depth + 1), r.choice(["'#'", "'0.00'", "'#,##0.0'", "'0.0#'", "'000'", "'#.#'"]))
+            return "format-number(%s, %s)" % (self.e_num(depth + 1), r.choice(["'0'", "'0.00'", "'#,##0.0'", "'0.0#'", "'000'", "'#0.#'"]))
         if self.ext:
             self.f('ext-str')
             return r.choice(["str:padding(%s, 'ab')" % r.choice(['0', '3', '5', '-1']), "str:concat(%s)" % self.e_ns(depth + 1),
